@@ -94,7 +94,29 @@ func propC15(ch core.Chooser, st *core.Stats) error {
 	}
 	cfg.SyncWrites = core.Pct(ch, "syncwrites", 15)
 	nkeys := ch.Int("nkeys", 5, 120)
-	ch.Note("config: %s fs=%s keys=%d", cfg, kind, nkeys)
+	// steady-state variant (drawn): every round overwrites every key once, restarts cleanly and
+	// only then compacts. Whatever the database knows about garbage has to survive the restart:
+	// a directory that grows with the number of rounds instead of staying near the live data
+	// crosses the space bound at the end.
+	steady := core.Pct(ch, "steady", 25)
+	if steady {
+		if nkeys < 50 {
+			nkeys = 50
+		}
+		// the drawn thresholds must make a fully dead segment eligible at all: with tiny
+		// segments the 512-byte header counts as live space (a 1 KiB segment never reaches a
+		// fragmentation of 0.5) and a minimum size equal to the maximum size excludes every
+		// segment sealed by a record that did not fit - artefacts of the test thresholds
+		cfg.MinSeg = 520
+		if cfg.Frag > 0.3 {
+			cfg.Frag = 0.3
+		}
+		if cfg.SegSize < 4096 {
+			cfg.SegSize = 4096
+		}
+		st.Count("runs_steady_overwrite_restart_compact", 1)
+	}
+	ch.Note("config: %s fs=%s keys=%d steady=%v", cfg, kind, nkeys, steady)
 	db, err := dbx.Open(env.Dir, cfg, env.FS)
 	if err != nil {
 		return err
@@ -134,6 +156,9 @@ func propC15(ch core.Chooser, st *core.Stats) error {
 		st.Count("initial_empty_sessions", 1)
 	}
 	rounds := ch.Int("rounds", 3, core.Scale(30, 200))
+	if steady {
+		rounds = ch.Int("steady_rounds", 20, core.Scale(30, 150))
+	}
 	removing, restartsBetween, lastRemovingRound := 0, 0, -1
 	restartSinceRemoving := false
 	step := 0
@@ -162,6 +187,22 @@ func propC15(ch core.Chooser, st *core.Stats) error {
 		mode := core.Weighted(ch, "roundmode", []int{8, 1, 1}) // churn, delete everything, nothing
 		vlen := core.PickInt(ch, "vlen", []int{1, 20, 40, 80, 200})
 		nops := ch.Int("nops", 1, 150)
+		if steady {
+			mode = 3
+			for i := 0; i < nkeys; i++ {
+				step++
+				v := mkValue(step, 80)
+				k := key(i)
+				if err := core.Safe(func() error { return db.Put([]byte(k), []byte(v)) }); err != nil {
+					return fmt.Errorf("round %d: Put failed: %v", r, err)
+				}
+				model[k] = v
+			}
+			if err := reopen(fmt.Sprintf("round %d after restart (steady)", r)); err != nil {
+				return err
+			}
+			restartSinceRemoving = true
+		}
 		switch mode {
 		case 0:
 			for j := 0; j < nops; j++ {
@@ -196,6 +237,17 @@ func propC15(ch core.Chooser, st *core.Stats) error {
 			}
 		}
 		var cr pogreb.CompactionResult
+		if !steady && core.Pct(ch, "skip_compaction", 25) {
+			// no compaction in this round: garbage produced now has to be remembered (possibly
+			// across a restart) until a later compaction
+			if core.Pct(ch, "restart_nocompact", 50) {
+				if err := reopen(fmt.Sprintf("round %d after restart without compaction", r)); err != nil {
+					return err
+				}
+				restartSinceRemoving = true
+			}
+			continue
+		}
 		if err := core.Safe(func() error {
 			var e error
 			cr, e = db.Compact()
